@@ -19,7 +19,7 @@ type Fact struct {
 	// for `x == <constant>` facts: the variable and the constant's exact value
 	eqVar   types.Object
 	eqConst string
-	vars map[types.Object]bool
+	vars    map[types.Object]bool
 }
 
 // State is the analysis state along one path.
